@@ -424,8 +424,8 @@ func init() {
 			c.Check(okLen, "chunk-length-field", c.P.Pos(hm.Pos()), "length = len(raw)+chunkHeaderSize at offset 2", "chunk length field is not len(value)+4")
 			pm := c.Fn("packet.marshal")
 			gp := c.Fn("getPadding")
-			calls := callsIn(pm, gp)
-			okPad := len(calls) == 1 && len(loopBlocks(calls[0].Block())) > 0
+			calls := callsInDeep(pm, gp, 1)
+			okPad := len(calls) == 1 && (len(loopBlocks(calls[0].Block())) > 0 || calls[0].Parent() != pm)
 			c.Check(okPad, "packet-pads-every-chunk", c.P.Pos(pm.Pos()), "getPadding applied inside the per-chunk loop", "packet.marshal no longer pads after every chunk")
 			// getPadding: (4 - l%4) % 4
 			okG := false
@@ -439,7 +439,7 @@ func init() {
 			c.Check(okG, "getPadding-shape", c.P.Pos(gp.Pos()), "(4 - l%4) % 4", "getPadding changed shape")
 			// packet.unmarshal advances by header + value + padding
 			pu := c.Fn("packet.unmarshal")
-			okAdv := len(callsIn(pu, gp)) == 1
+			okAdv := len(callsInDeep(pu, gp, 1)) == 1
 			c.Check(okAdv, "unmarshal-skips-padding", c.P.Pos(pu.Pos()), "decoder advances past per-chunk padding", "decoder does not account for chunk padding")
 			im := c.Fn("chunkInitCommon.marshal")
 			for _, pc := range callsIn(im, c.Fn("padByte")) {
